@@ -90,9 +90,7 @@
  "level": "U/k",
  "tier": "wip",
  "harness": "h_ea_increment",
- "enforce": [
-  "ea_refcount_increment"
- ],
+ "enforce": [],
  "replace": [
   "refcount_collapse"
  ],
@@ -102,7 +100,8 @@
  ],
  "defines": [
   "EXT2_CUSTOM_MEMORY_ROUTINES",
-  "EA_SCEN_ROOM"
+  "EA_SCEN_ROOM",
+  "EA_PLAIN"
  ],
  "unwind": 10,
  "unwindset": {
@@ -120,7 +119,8 @@
   "well_formed (strictly ascending keys) is a universally quantified precondition; it enters as INSTANCES: at the lower bounds of the operation key and of the ghost view key and their predecessors, at the ghost index and its predecessor, at the last entry, at the cursor, and at every index probed by the binary search (ghost statement VERIF_GHOST_GET_REFCOUNT_EL_PROBE = assume of the instance at mid; sound because the list has not been written since the state the invariant speaks about); the lower bounds are arbitrary ghost values constrained only by these instances",
   "needs the ghost anchor of hooks-pending/ds.diff in e2fsck/ea_refcount.c",
   "scenario 'room': count < size on entry (refcount_collapse and the resize are then unreachable: obligations 'never called'); the scenario count == size is unit ea_refcount_increment_shrink / ea_refcount_increment_grow",
-  "memmove of the list by a ghost-index specification (C standard semantics at the ghost index, rest of the object havocked)"
+  "memmove of the list by a ghost-index specification (C standard semantics at the ghost index, rest of the object havocked)",
+  "the contract of the operation is stated by the harness (ASSUME precondition, CHECK postconditions) \u2014 no frame (assigns) obligations in this unit: enforcing the frame on the insertion paths exceeds the memory limit; the frame of the lookup paths is checked by ea_refcount_fetch / ea_refcount_decrement"
  ],
  "native": false
 }
@@ -135,9 +135,7 @@
  "level": "U/k",
  "tier": "wip",
  "harness": "h_ea_increment",
- "enforce": [
-  "ea_refcount_increment"
- ],
+ "enforce": [],
  "replace": [
   "refcount_collapse"
  ],
@@ -147,7 +145,8 @@
  ],
  "defines": [
   "EXT2_CUSTOM_MEMORY_ROUTINES",
-  "EA_SCEN_SHRINK"
+  "EA_SCEN_SHRINK",
+  "EA_PLAIN"
  ],
  "unwind": 10,
  "unwindset": {
@@ -165,7 +164,8 @@
   "well_formed (strictly ascending keys) is a universally quantified precondition; it enters as INSTANCES: at the lower bounds of the operation key and of the ghost view key and their predecessors, at the ghost index and its predecessor, at the last entry, at the cursor, and at every index probed by the binary search (ghost statement VERIF_GHOST_GET_REFCOUNT_EL_PROBE = assume of the instance at mid; sound because the list has not been written since the state the invariant speaks about); the lower bounds are arbitrary ghost values constrained only by these instances",
   "needs the ghost anchor of hooks-pending/ds.diff in e2fsck/ea_refcount.c",
   "realloc / memmove of the list by ghost-index specifications (C standard semantics at the ghost index, rest of the object havocked)",
-  "scenario 'shrink': count == size on entry and refcount_collapse (replaced by its contract: well-formed result, same views, lower bounds reported in ghosts; proved for lists of up to 4 entries by ea_collapse_B4) drops at least one entry; the complementary outcome is unit ea_refcount_increment_grow; the resize is then unreachable (obligation)"
+  "scenario 'shrink': count == size on entry and refcount_collapse (replaced by its contract: well-formed result, same views, lower bounds reported in ghosts; proved for lists of up to 4 entries by ea_collapse_B4) drops at least one entry; the complementary outcome is unit ea_refcount_increment_grow; the resize is then unreachable (obligation)",
+  "the contract of the operation is stated by the harness (ASSUME precondition, CHECK postconditions) \u2014 no frame (assigns) obligations in this unit: enforcing the frame on the insertion paths exceeds the memory limit; the frame of the lookup paths is checked by ea_refcount_fetch / ea_refcount_decrement"
  ],
  "native": false
 }
@@ -180,9 +180,7 @@
  "level": "U/k",
  "tier": "wip",
  "harness": "h_ea_increment",
- "enforce": [
-  "ea_refcount_increment"
- ],
+ "enforce": [],
  "replace": [
   "refcount_collapse"
  ],
@@ -192,7 +190,8 @@
  ],
  "defines": [
   "EXT2_CUSTOM_MEMORY_ROUTINES",
-  "EA_SCEN_GROW"
+  "EA_SCEN_GROW",
+  "EA_PLAIN"
  ],
  "unwind": 10,
  "unwindset": {
@@ -210,7 +209,8 @@
   "well_formed (strictly ascending keys) is a universally quantified precondition; it enters as INSTANCES: at the lower bounds of the operation key and of the ghost view key and their predecessors, at the ghost index and its predecessor, at the last entry, at the cursor, and at every index probed by the binary search (ghost statement VERIF_GHOST_GET_REFCOUNT_EL_PROBE = assume of the instance at mid; sound because the list has not been written since the state the invariant speaks about); the lower bounds are arbitrary ghost values constrained only by these instances",
   "needs the ghost anchor of hooks-pending/ds.diff in e2fsck/ea_refcount.c",
   "realloc / memmove of the list by ghost-index specifications (C standard semantics at the ghost index, rest of the object havocked)",
-  "scenario 'grow': count == size on entry and refcount_collapse (replaced by its contract, see ea_collapse_B4) drops nothing; the complementary outcome is unit ea_refcount_increment_shrink; the 'goto retry' back edge is then never taken (unwinding assertion)"
+  "scenario 'grow': count == size on entry and refcount_collapse (replaced by its contract, see ea_collapse_B4) drops nothing; the complementary outcome is unit ea_refcount_increment_shrink; the 'goto retry' back edge is then never taken (unwinding assertion)",
+  "the contract of the operation is stated by the harness (ASSUME precondition, CHECK postconditions) \u2014 no frame (assigns) obligations in this unit: enforcing the frame on the insertion paths exceeds the memory limit; the frame of the lookup paths is checked by ea_refcount_fetch / ea_refcount_decrement"
  ],
  "native": false
 }
@@ -225,9 +225,7 @@
  "level": "U/k",
  "tier": "wip",
  "harness": "h_ea_store",
- "enforce": [
-  "ea_refcount_store"
- ],
+ "enforce": [],
  "replace": [
   "refcount_collapse"
  ],
@@ -237,7 +235,8 @@
  ],
  "defines": [
   "EXT2_CUSTOM_MEMORY_ROUTINES",
-  "EA_SCEN_ROOM"
+  "EA_SCEN_ROOM",
+  "EA_PLAIN"
  ],
  "unwind": 10,
  "unwindset": {
@@ -255,7 +254,8 @@
   "well_formed (strictly ascending keys) is a universally quantified precondition; it enters as INSTANCES: at the lower bounds of the operation key and of the ghost view key and their predecessors, at the ghost index and its predecessor, at the last entry, at the cursor, and at every index probed by the binary search (ghost statement VERIF_GHOST_GET_REFCOUNT_EL_PROBE = assume of the instance at mid; sound because the list has not been written since the state the invariant speaks about); the lower bounds are arbitrary ghost values constrained only by these instances",
   "needs the ghost anchor of hooks-pending/ds.diff in e2fsck/ea_refcount.c",
   "scenario 'room': count < size on entry (refcount_collapse and the resize are then unreachable: obligations 'never called'); the scenario count == size is unit ea_refcount_store_shrink / ea_refcount_store_grow",
-  "memmove of the list by a ghost-index specification (C standard semantics at the ghost index, rest of the object havocked)"
+  "memmove of the list by a ghost-index specification (C standard semantics at the ghost index, rest of the object havocked)",
+  "the contract of the operation is stated by the harness (ASSUME precondition, CHECK postconditions) \u2014 no frame (assigns) obligations in this unit: enforcing the frame on the insertion paths exceeds the memory limit; the frame of the lookup paths is checked by ea_refcount_fetch / ea_refcount_decrement"
  ],
  "native": false
 }
@@ -270,9 +270,7 @@
  "level": "U/k",
  "tier": "wip",
  "harness": "h_ea_store",
- "enforce": [
-  "ea_refcount_store"
- ],
+ "enforce": [],
  "replace": [
   "refcount_collapse"
  ],
@@ -282,7 +280,8 @@
  ],
  "defines": [
   "EXT2_CUSTOM_MEMORY_ROUTINES",
-  "EA_SCEN_SHRINK"
+  "EA_SCEN_SHRINK",
+  "EA_PLAIN"
  ],
  "unwind": 10,
  "unwindset": {
@@ -300,7 +299,8 @@
   "well_formed (strictly ascending keys) is a universally quantified precondition; it enters as INSTANCES: at the lower bounds of the operation key and of the ghost view key and their predecessors, at the ghost index and its predecessor, at the last entry, at the cursor, and at every index probed by the binary search (ghost statement VERIF_GHOST_GET_REFCOUNT_EL_PROBE = assume of the instance at mid; sound because the list has not been written since the state the invariant speaks about); the lower bounds are arbitrary ghost values constrained only by these instances",
   "needs the ghost anchor of hooks-pending/ds.diff in e2fsck/ea_refcount.c",
   "realloc / memmove of the list by ghost-index specifications (C standard semantics at the ghost index, rest of the object havocked)",
-  "scenario 'shrink': count == size on entry and refcount_collapse (replaced by its contract: well-formed result, same views, lower bounds reported in ghosts; proved for lists of up to 4 entries by ea_collapse_B4) drops at least one entry; the complementary outcome is unit ea_refcount_store_grow; the resize is then unreachable (obligation)"
+  "scenario 'shrink': count == size on entry and refcount_collapse (replaced by its contract: well-formed result, same views, lower bounds reported in ghosts; proved for lists of up to 4 entries by ea_collapse_B4) drops at least one entry; the complementary outcome is unit ea_refcount_store_grow; the resize is then unreachable (obligation)",
+  "the contract of the operation is stated by the harness (ASSUME precondition, CHECK postconditions) \u2014 no frame (assigns) obligations in this unit: enforcing the frame on the insertion paths exceeds the memory limit; the frame of the lookup paths is checked by ea_refcount_fetch / ea_refcount_decrement"
  ],
  "native": false
 }
@@ -315,9 +315,7 @@
  "level": "U/k",
  "tier": "wip",
  "harness": "h_ea_store",
- "enforce": [
-  "ea_refcount_store"
- ],
+ "enforce": [],
  "replace": [
   "refcount_collapse"
  ],
@@ -327,7 +325,8 @@
  ],
  "defines": [
   "EXT2_CUSTOM_MEMORY_ROUTINES",
-  "EA_SCEN_GROW"
+  "EA_SCEN_GROW",
+  "EA_PLAIN"
  ],
  "unwind": 10,
  "unwindset": {
@@ -345,7 +344,8 @@
   "well_formed (strictly ascending keys) is a universally quantified precondition; it enters as INSTANCES: at the lower bounds of the operation key and of the ghost view key and their predecessors, at the ghost index and its predecessor, at the last entry, at the cursor, and at every index probed by the binary search (ghost statement VERIF_GHOST_GET_REFCOUNT_EL_PROBE = assume of the instance at mid; sound because the list has not been written since the state the invariant speaks about); the lower bounds are arbitrary ghost values constrained only by these instances",
   "needs the ghost anchor of hooks-pending/ds.diff in e2fsck/ea_refcount.c",
   "realloc / memmove of the list by ghost-index specifications (C standard semantics at the ghost index, rest of the object havocked)",
-  "scenario 'grow': count == size on entry and refcount_collapse (replaced by its contract, see ea_collapse_B4) drops nothing; the complementary outcome is unit ea_refcount_store_shrink; the 'goto retry' back edge is then never taken (unwinding assertion)"
+  "scenario 'grow': count == size on entry and refcount_collapse (replaced by its contract, see ea_collapse_B4) drops nothing; the complementary outcome is unit ea_refcount_store_shrink; the 'goto retry' back edge is then never taken (unwinding assertion)",
+  "the contract of the operation is stated by the harness (ASSUME precondition, CHECK postconditions) \u2014 no frame (assigns) obligations in this unit: enforcing the frame on the insertion paths exceeds the memory limit; the frame of the lookup paths is checked by ea_refcount_fetch / ea_refcount_decrement"
  ],
  "native": false
 }
@@ -359,39 +359,48 @@
  *                 may fail with EXT2_ET_NO_MEMORY, then no view changes
  *   decrement(A)  view(A) == 0: EXT2_ET_INVALID_ARGUMENT, nothing changes; otherwise view(A) -= 1, others unchanged
  *   store(A, v)   view(A) = v, others unchanged; may fail with EXT2_ET_NO_MEMORY only for v != 0, then nothing changes
- * Each REQUIRES well_formed and ENSURES well_formed (EA_POST_WF: at the arbitrary index ea_gI, for the arbitrary key K).
+ * Each REQUIRES well_formed (EA_PRE) and ENSURES well_formed (EA_POST_OK: at the arbitrary index ea_gI, for the arbitrary
+ * key K) and the view of K.  The postconditions are macros so that the units that cannot afford the frame
+ * instrumentation state the same contract through the harness (EA_PLAIN).
  */
+#define FETCH_POST(rc, r, out) \
+	((r) == 0 && EA_SAMECOUNT(rc) && EA_POST_OK(rc, EA_QK(rc), ea_gV) && (ea_gK != ea_gA || (out) == ea_gV))
+#define INCREMENT_POST(rc, r, retp) \
+	(((r) == 0 || (r) == EXT2_ET_NO_MEMORY) && \
+	 ((r) == 0 ? (EA_SAMECOUNT(rc) || EA_ADDED(rc)) : EA_SAMECOUNT(rc)) && \
+	 EA_POST_OK(rc, EA_QK(rc), ea_gV + (((r) == 0 && ea_gK == ea_gA) ? 1 : 0)) && \
+	 (!((r) == 0 && (retp) != 0 && ea_gK == ea_gA) || *(retp) == ea_gV + 1))
+#define DECREMENT_POST(rc, r, retp) \
+	(((r) == 0 || (r) == EXT2_ET_INVALID_ARGUMENT) && EA_SAMECOUNT(rc) && \
+	 (ea_gK != ea_gA || (((r) != 0) == (ea_gV == 0))) && \
+	 EA_POST_OK(rc, EA_QK(rc), ea_gV - (((r) == 0 && ea_gK == ea_gA) ? 1 : 0)) && \
+	 (!((r) == 0 && (retp) != 0 && ea_gK == ea_gA) || *(retp) == ea_gV - 1))
+#define STORE_POST(rc, r, val) \
+	(((r) == 0 || ((r) == EXT2_ET_NO_MEMORY && (val) != 0)) && \
+	 (((r) == 0 && (val) != 0) ? (EA_SAMECOUNT(rc) || EA_ADDED(rc)) : EA_SAMECOUNT(rc)) && \
+	 EA_POST_OK(rc, EA_QK(rc), ((r) == 0 && ea_gK == ea_gA) ? (val) : ea_gV))
+
+#ifndef EA_PLAIN
 errcode_t ea_refcount_fetch(ext2_refcount_t refcount, ea_key_t ea_key, ea_value_t *ret)
 	REQUIRES(EA_PRE(refcount, ea_key))
-	ASSIGNS(*ret, EA_MUTABLE(refcount))
-	ENSURES(RET == 0)
-	ENSURES(EA_SAMECOUNT(refcount) && EA_POST_OK(refcount, EA_QK(refcount), ea_gV))
-	ENSURES(ea_gK == ea_gA ==> *ret == ea_gV);
+	ASSIGNS(*ret, refcount->cursor, ea_dec)
+	ENSURES(FETCH_POST(refcount, RET, *ret));
+
+errcode_t ea_refcount_decrement(ext2_refcount_t refcount, ea_key_t ea_key, ea_value_t *ret)
+	REQUIRES(EA_PRE(refcount, ea_key))
+	ASSIGNS(ret != 0: *ret; refcount->cursor, __CPROVER_object_whole(refcount->list), ea_dec)
+	ENSURES(DECREMENT_POST(refcount, RET, ret));
 
 errcode_t ea_refcount_increment(ext2_refcount_t refcount, ea_key_t ea_key, ea_value_t *ret)
 	REQUIRES(EA_PRE(refcount, ea_key) && refcount->count < EA_CAP)
 	ASSIGNS(ret != 0: *ret; EA_MUTABLE(refcount))
-	ENSURES(RET == 0 || RET == EXT2_ET_NO_MEMORY)
-	ENSURES(RET == 0 ? (EA_SAMECOUNT(refcount) || EA_ADDED(refcount)) : EA_SAMECOUNT(refcount))
-	ENSURES(EA_POST_OK(refcount, EA_QK(refcount), ea_gV + ((RET == 0 && ea_gK == ea_gA) ? 1 : 0)))
-	ENSURES((RET == 0 && ret != 0 && ea_gK == ea_gA) ==> *ret == ea_gV + 1);
-
-errcode_t ea_refcount_decrement(ext2_refcount_t refcount, ea_key_t ea_key, ea_value_t *ret)
-	REQUIRES(EA_PRE(refcount, ea_key))
-	ASSIGNS(ret != 0: *ret; EA_MUTABLE(refcount))
-	ENSURES(RET == 0 || RET == EXT2_ET_INVALID_ARGUMENT)
-	ENSURES(EA_SAMECOUNT(refcount))
-	ENSURES(ea_gK == ea_gA ==> ((RET != 0) == (ea_gV == 0)))
-	ENSURES(EA_POST_OK(refcount, EA_QK(refcount), ea_gV - ((RET == 0 && ea_gK == ea_gA) ? 1 : 0)))
-	ENSURES((RET == 0 && ret != 0 && ea_gK == ea_gA) ==> *ret == ea_gV - 1);
+	ENSURES(INCREMENT_POST(refcount, RET, ret));
 
 errcode_t ea_refcount_store(ext2_refcount_t refcount, ea_key_t ea_key, ea_value_t ea_value)
 	REQUIRES(EA_PRE(refcount, ea_key) && refcount->count < EA_CAP)
 	ASSIGNS(EA_MUTABLE(refcount))
-	ENSURES(RET == 0 || (RET == EXT2_ET_NO_MEMORY && ea_value != 0))
-	ENSURES((RET == 0 && ea_value != 0) ? (EA_SAMECOUNT(refcount) || EA_ADDED(refcount)) : EA_SAMECOUNT(refcount))
-	ENSURES(EA_POST_OK(refcount, EA_QK(refcount), (RET == 0 && ea_gK == ea_gA) ? ea_value : ea_gV));
-
+	ENSURES(STORE_POST(refcount, RET, ea_value));
+#endif
 
 static void build(void)
 {
@@ -406,8 +415,15 @@ static void build(void)
 	ea_gK = IN.k; ea_gPK = IN.pk;
 	ea_gI = IN.i;
 	ea_gV = IN.v0;
+	ea_gCount0 = IN.count;
 	ea_collapsed = 0;
 	ea_gPA2 = ea_gPK2 = ea_gCount2 = 0;
+	ea_dec = 0;
+#if defined(EA_SCEN_ROOM)
+	ASSUME(IN.count < IN.size);
+#elif defined(EA_SCEN_SHRINK) || defined(EA_SCEN_GROW)
+	ASSUME(IN.count == IN.size);
+#endif
 }
 
 void h_ea_fetch(void)
@@ -425,28 +441,6 @@ void h_ea_fetch(void)
 	REACH("end");
 }
 
-void h_ea_increment(void)
-{
-	ea_value_t out;
-
-	build();
-#ifdef EA_SCEN_ROOM
-	ASSUME(IN.count < IN.size);
-#else
-	ASSUME(IN.count == IN.size);
-#endif
-	ea_refcount_increment(&RC, IN.a, IN.retnull ? (ea_value_t *) 0 : &out);
-	if (IN.count > 2 && IN.pa > 0 && IN.pa < IN.count && IN.k > IN.a)
-		REACH("insert or hit in the middle");
-	if (IN.pa == IN.count)
-		REACH("append");
-#ifdef EA_SCEN_ROOM
-	if (IN.count == 0)
-		REACH("empty");
-#endif
-	REACH("end");
-}
-
 void h_ea_decrement(void)
 {
 	ea_value_t out;
@@ -460,15 +454,43 @@ void h_ea_decrement(void)
 	REACH("end");
 }
 
+void h_ea_increment(void)
+{
+	ea_value_t out, *retp;
+	errcode_t r;
+
+	build();
+	retp = IN.retnull ? (ea_value_t *) 0 : &out;
+#ifdef EA_PLAIN
+	ASSUME(EA_PRE(&RC, IN.a) && RC.count < EA_CAP);
+#endif
+	r = ea_refcount_increment(&RC, IN.a, retp);
+#ifdef EA_PLAIN
+	CHECK(INCREMENT_POST(&RC, r, retp), "increment: view(A) + 1, every other view unchanged, list well-formed; or ENOMEM and no view changed");
+#endif
+	if (IN.count > 2 && IN.pa > 0 && IN.pa < IN.count && IN.k > IN.a)
+		REACH("insert or hit in the middle");
+	if (IN.pa == IN.count)
+		REACH("append");
+#ifdef EA_SCEN_ROOM
+	if (IN.count == 0)
+		REACH("empty");
+#endif
+	REACH("end");
+}
+
 void h_ea_store(void)
 {
+	errcode_t r;
+
 	build();
-#ifdef EA_SCEN_ROOM
-	ASSUME(IN.count < IN.size);
-#else
-	ASSUME(IN.count == IN.size);
+#ifdef EA_PLAIN
+	ASSUME(EA_PRE(&RC, IN.a) && RC.count < EA_CAP);
 #endif
-	ea_refcount_store(&RC, IN.a, IN.v);
+	r = ea_refcount_store(&RC, IN.a, IN.v);
+#ifdef EA_PLAIN
+	CHECK(STORE_POST(&RC, r, IN.v), "store: view(A) = v, every other view unchanged, list well-formed; or ENOMEM (v != 0 only) and no view changed");
+#endif
 	if (IN.count > 2 && IN.pa > 0 && IN.pa < IN.count && IN.k > IN.a && IN.v != 0)
 		REACH("insert or hit in the middle");
 	if (IN.pa == IN.count && IN.v != 0)
